@@ -64,8 +64,25 @@ def mk_cases(ctx):
         for e in esc_items:
             cases.append(dict(op="join", sep=sep, items=[("s", "a"), ("s", e)]))
             cases.append(dict(op="join", sep=sep, items=[("s", e), ("f", pool[2])]))
-    # seeded random longer strings
+    # seeded random operands of every operation: layouts of up to 6 runs, larger repeat counts, longer item lists
+    # ("every pair of operands for +; every non-negative repeat count; every list of str/FmtStr items")
     r = ctx.rng
+    ALPHA = "abcdefghijklmnopqrstuvwxyzABCDEFGHIJKLMNOPQRSTUVWXYZ0123456789 \n"
+
+    def rand_f(maxruns=6, maxlen=4):
+        lens = tuple(r.randint(0, maxlen) for _ in range(r.randint(0, maxruns)))
+        return chunks_for(lens, alphabet=ALPHA, shift=r.randint(0, 6))
+
+    def rand_s():
+        return "".join(r.choice(ALPHA) for _ in range(r.randint(0, 5)))
+    for _ in range(1500 if ctx.thorough else 300):
+        cases.append(dict(op="add", f=rand_f(), g=rand_f()))
+        cases.append(dict(op="addstr", f=rand_f(), s=rand_s()))
+        cases.append(dict(op="raddstr", f=rand_f(), s=rand_s()))
+        cases.append(dict(op="mul", f=rand_f(3, 3), n=r.randint(0, 9)))
+        cases.append(dict(op="rmul", f=rand_f(3, 3), n=r.randint(0, 9)))
+        items = [("f", rand_f(3, 3)) if r.random() < 0.6 else ("s", rand_s()) for _ in range(r.randint(0, 7))]
+        cases.append(dict(op="join", sep=rand_f(2, 2), items=items))
     for _ in range(3000 if ctx.thorough else 600):
         lens = tuple(r.randint(0, 6) for _ in range(r.randint(0, 6)))
         ch = chunks_for(lens, alphabet="abcdefghijklmnopqrstuvwxyzABCDEFGHIJKLMNOPQRSTUVWXYZ0123456789", shift=r.randint(0, 6))
@@ -114,9 +131,12 @@ def api_built_cases(ctx):
             try:
                 ch = wire.fmt_chunks(f)
                 wire.enc_chunks(ch)
-                f.width   # observe the width first (a cache filled here must not leak into len/indexing)
-            except (wire.Unencodable, ValueError):
+            except wire.Unencodable:
                 continue
+            try:
+                f.width   # observe the width first (a cache filled here must not leak into len/indexing)
+            except ValueError:
+                pass      # text with control characters has no width; everything else still applies
             OBJ.append(f)
             k = len(OBJ) - 1
             n = sum(len(t) for t, _ in ch)
@@ -126,16 +146,19 @@ def api_built_cases(ctx):
                     cases.append(dict(op="slice", f=ch, obj=k, a=a, b=b))
             for i in (0, -1, n - 1, n, -n, -n - 1):
                 cases.append(dict(op="int", f=ch, obj=k, i=i))
-            cases.append(dict(op="mul", f=ch, obj=k, n=2))
+            cases.append(dict(op="mul", f=ch, obj=k, n=r.choice((0, 1, 2, 3, 5))))
+            cases.append(dict(op="rmul", f=ch, obj=k, n=r.choice((0, 1, 2, 4))))
             cases.append(dict(op="addstr", f=ch, obj=k, s="z"))
             cases.append(dict(op="raddstr", f=ch, obj=k, s="z"))
+            cases.append(dict(op="add", f=ch, obj=k, g=chunks_for((1, 2), shift=1)))
+            cases.append(dict(op="join", sep=ch, obj=k, items=[("s", "p"), ("f", chunks_for((2,), shift=2)), ("s", "")]))
     return cases
 
 
 def run_impl(c):
     """the real operation -> FmtStr (or raises); the operand objects are left in LAST_OPERANDS"""
     op = c["op"]
-    f = OBJ[c["obj"]] if "obj" in c else (mk_fmt(c["f"]) if "f" in c else None)
+    f = (OBJ[c["obj"]] if "obj" in c else mk_fmt(c["f"])) if "f" in c else None
     del LAST_OPERANDS[:]
     if f is not None:
         LAST_OPERANDS.append((f, c["f"]))
@@ -158,7 +181,7 @@ def run_impl(c):
     if op == "step":
         return f[c["a"]:c["b"]:1]
     if op == "join":
-        sep = mk_fmt(c["sep"])
+        sep = OBJ[c["obj"]] if "obj" in c else mk_fmt(c["sep"])
         LAST_OPERANDS.append((sep, c["sep"]))
         items = []
         for k, v in c["items"]:
@@ -210,6 +233,11 @@ def expected(c):
     raise KeyError(op)
 
 
+def in_quantifier(c):
+    """slice steps and negative repeat counts are outside the property's quantifier"""
+    return c["op"] != "step" and not (c["op"] in ("mul", "rmul") and c["n"] < 0)
+
+
 def operands(c):
     out = []
     for k in ("f", "g", "sep"):
@@ -221,8 +249,8 @@ def operands(c):
 def oracle(c):
     """-> None if the implementation satisfies the property on this case, else a description"""
     exp = expected(c)
-    if exp[0] == "outside":
-        return None   # slicing with a step: outside the statement (tie only)
+    if exp[0] == "outside" or not in_quantifier(c):
+        return None   # slicing with a step, negative repeat counts: outside the statement (representation tie only)
     try:
         r = run_impl(c)
     except Exception as e:  # noqa: BLE001
@@ -295,7 +323,7 @@ def check(ctx):
     except Exception as e:  # noqa: BLE001 - without the model nothing is attributed to D27
         ctx.note("D27 expectations unavailable: %r" % (e,))
     # property level: per-character view, inputs inside the quantifier (slice steps are outside it)
-    ctx.tie("C06/ops", [c for c in cases if c["op"] != "step"], line, impl, canon_cells, canon_cells)
+    ctx.tie("C06/ops", [c for c in cases if in_quantifier(c)], line, impl, canon_cells, canon_cells)
     # representation level: run structure too (C09/C15/C16 reuse getslice) and the refusal of slice steps; a difference
     # here deepens the search but is no verdict while the per-character tie above holds
     ctx.tie("C06/ops-run-level", cases, line, impl, level="representation")
